@@ -912,8 +912,8 @@ Section Inv.
     pose proof (st_inv _ _ _ _ _ _ _ _ SP3) as I3.
     pose proof (conn_rel_rc _ _ _ _ (st_conn _ _ _ _ _ _ _ _ SP3) Hrc2) as Hrc3.
     (* 4. the queue *)
-    pose proof (process_action_inv (Nat.mul 64 64) now d3 store tmo3 pl (e1 ++ e2) I3 (st_pos _ _ _ _ _ _ _ _ SP3) Hrc3) as H4.
-    destruct (process_action rmatch compress sc (Nat.mul 64 64) now d3 store tmo3 pl (e1 ++ e2)) as [[[[[d4 st4] tmo4] pl4] e4]| | | |]; try contradiction; [|exact Logic.I].
+    pose proof (process_action_inv (pa_fuel d3) now d3 store tmo3 pl (e1 ++ e2) I3 (st_pos _ _ _ _ _ _ _ _ SP3) Hrc3) as H4.
+    destruct (process_action rmatch compress sc (pa_fuel d3) now d3 store tmo3 pl (e1 ++ e2)) as [[[[[d4 st4] tmo4] pl4] e4]| | | |]; try contradiction; [|exact Logic.I].
     destruct H4 as (e5 & -> & SP4 & TK). split; [|exact TK].
     pose proof (step_post_trans _ _ _ _ _ _ _ _ _ _ _ _ Hrc SP1 SP2) as SP12.
     pose proof (step_post_trans _ _ _ _ _ _ _ _ _ _ _ _ Hrc SP12 SP3) as SP123. rewrite app_nil_r in SP123.
